@@ -50,6 +50,8 @@ CONSTANTS G,          \* goroutine ids, a set of naturals > 0
           HsShape,    \* sequence over {"wl","wf","r"}
           MaxPeer,    \* number of records the peer may send after the handshake
           PeerKinds,  \* subset of {"d1","d2","hs","ku"}
+          Reneg,      \* BOOLEAN: Config.Renegotiation allows renegotiation (else HelloRequest is refused by an alert)
+          RenegOK,    \* BOOLEAN: the peer may go through with a renegotiation (a zcrypto server never does)
           Record,     \* BOOLEAN: keep the schedule history (generation only)
           GenMin,     \* generation only: the peer does not close / no deadline expires before this many
                       \* schedule events (random simulation would otherwise mostly close at once)
@@ -67,6 +69,9 @@ VARIABLES prog, ci, pc,            \* program, index of the current call, contro
           ac, status, hsErr, hsI, inErr, outErr, cnSent, inLeft,
           netClosed, peerClosed, inQ, peerN, rdl, wdl,
           midW, atomicOK,          \* monitor of record-level atomicity of Write (observation)
+          rn,                      \* goroutine that runs a renegotiation inside Read (0 = none)
+          sealN, wireN, pend, seqOK,  \* record sequence monitor: records sealed / put on the wire so far,
+                                   \* number of the sealed record each goroutine still has to write
           hist,                    \* schedule history (controllable events only; generation)
           tags                     \* branches of interest taken so far (generation of directed schedules)
 
@@ -75,7 +80,8 @@ locks == <<hsMu, inMu, outMu>>
 conn  == <<ac, status, hsErr, hsI, inErr, outErr, cnSent, inLeft>>
 net   == <<netClosed, peerClosed, inQ, peerN, rdl, wdl>>
 mon   == <<midW, atomicOK>>
-vars  == <<ctl, locks, conn, net, mon, hist, tags>>
+ext   == <<rn, sealN, wireN, pend, seqOK>>
+vars  == <<ctl, locks, conn, net, mon, ext, hist, tags>>
 
 Cur(g) == IF ci[g] <= Len(prog[g]) THEN prog[g][ci[g]] ELSE "none"
 Log(e) == hist' = (IF Record THEN Append(hist, e) ELSE hist) /\ UNCHANGED tags
@@ -89,6 +95,20 @@ Goto(g, l) == pc' = [pc EXCEPT ![g] = l]
 EndCall(g) == /\ pc' = [pc EXCEPT ![g] = "idle"]
               /\ ci' = [ci EXCEPT ![g] = @ + 1]
 X0 == [c |-> FALSE, n |-> 0]
+
+----------------------------------------------------------------------------
+(* record sequence monitor: a record gets its number when it is sealed (halfConn.encrypt increments
+   c.out.seq) and must reach the wire in that order - the peer authenticates the sequence number *)
+
+SqSame      == UNCHANGED <<sealN, wireN, pend, seqOK>>
+SealU(g)    == /\ sealN' = sealN + 1 /\ pend' = [pend EXCEPT ![g] = sealN + 1] /\ UNCHANGED <<wireN, seqOK>>
+WireU(g)    == /\ wireN' = wireN + 1 /\ seqOK' = (seqOK /\ pend[g] = wireN + 1)
+               /\ pend' = [pend EXCEPT ![g] = 0] /\ UNCHANGED sealN
+WireSealU(g) == /\ wireN' = wireN + 1 /\ seqOK' = (seqOK /\ pend[g] = wireN + 1)
+                /\ sealN' = sealN + 1 /\ pend' = [pend EXCEPT ![g] = sealN + 1]
+DropU(g)    == /\ wireN' = wireN + 1 /\ pend' = [pend EXCEPT ![g] = 0] /\ UNCHANGED <<sealN, seqOK>>   \* failed write
+\* flush(): the records buffered during the handshake are written at once, without c.out
+FlushU      == /\ sealN' = sealN + 1 /\ wireN' = wireN + 1 /\ seqOK' = (seqOK /\ sealN = wireN) /\ UNCHANGED pend
 
 ----------------------------------------------------------------------------
 (* transport readiness *)
@@ -106,6 +126,8 @@ StageLabel(s) == CASE s = "wl" -> "hs_wl_lock" [] s = "wf" -> "hs_wf" [] s = "r"
 
 \* which lock closeNotify takes ("cn_in": mutation of DESIGN 9.1)
 CnUsesIn == "cn_in" \in Mut
+\* mutation ku_nolock: the KeyUpdate reply is sealed and sent, and the sending keys rotated, without c.out
+KuNoLock == "ku_nolock" \in Mut
 
 ----------------------------------------------------------------------------
 (* enabling condition of the single action available at each control point *)
@@ -120,7 +142,9 @@ Guard(g) ==
     [] pc[g] = "hs_r"       -> HsROk \/ HsRFail
     [] pc[g] = "rd_lock"    -> inMu = 0
     [] pc[g] = "rd_net"     -> ROk \/ RFail
-    [] pc[g] = "rd_ku_lock" -> outMu = 0
+    [] pc[g] = "rd_ku_lock" -> KuNoLock \/ outMu = 0
+    [] pc[g] = "rd_al_lock" -> outMu = 0
+    [] pc[g] = "rn_lock"    -> hsMu = 0
     [] pc[g] = "wr_outlock" -> outMu = 0
     [] pc[g] = "cn_lock"    -> IF CnUsesIn THEN inMu = 0 ELSE outMu = 0
     [] pc[g] = "cs_lock"    -> "cs_nolock" \in Mut \/ hsMu = 0
@@ -138,8 +162,12 @@ Acc(l, call) ==
     [] l = "rd_net"     -> {<<"IN", TRUE>>, <<"VERS", FALSE>>}
     [] l = "rd_ku_lock" -> {<<"IN", TRUE>>, <<"OUT", TRUE>>, <<"VERS", FALSE>>}
     [] l = "rd_ku_w"    -> {<<"OUT", TRUE>>}
+    [] l = "rd_al_lock" -> {<<"IN", TRUE>>, <<"OUT", TRUE>>, <<"VERS", FALSE>>}
+    [] l = "rd_al_w"    -> {<<"OUT", TRUE>>}
+    [] l = "rn_unl"     -> {<<"HSK", TRUE>>}
     [] l = "wr_cas"     -> IF "wr_vers_early" \in Mut THEN {<<"VERS", FALSE>>} ELSE {}
-    [] l = "wr_outlock" -> {<<"OUT", TRUE>>, <<"VERS", FALSE>>}
+    \* Write reads c.vers only after it saw handshakeComplete() under c.out
+    [] l = "wr_outlock" -> IF status = 1 THEN {<<"OUT", TRUE>>, <<"VERS", FALSE>>} ELSE {<<"OUT", FALSE>>}
     [] l = "wr_net"     -> {<<"OUT", TRUE>>, <<"VERS", FALSE>>}
     [] l = "cn_lock"    -> {<<"OUT", TRUE>>, <<"VERS", FALSE>>}
     [] l = "cn_net"     -> {<<"OUT", TRUE>>}
@@ -157,7 +185,9 @@ LocksAt(l) ==
     [] l \in {"hs_inlock", "hs_wf", "hs_r", "hs_store", "hs_unl_in"} -> {"hs", "in"}
     [] l \in {"hs_wl_lock", "hs_wl_w"} -> {"hs", "in", "out"}
     [] l \in {"rd_lock", "rd_net", "rd_unl"} -> {"in"}
-    [] l \in {"rd_ku_lock", "rd_ku_w"} -> {"in", "out"}
+    [] l \in {"rd_ku_lock", "rd_ku_w"} -> IF KuNoLock THEN {"in"} ELSE {"in", "out"}
+    [] l \in {"rd_al_lock", "rd_al_w"} -> {"in", "out"}
+    [] l \in {"rn_lock", "rn_unl"} -> {"hs", "in"}
     [] l \in {"wr_outlock", "wr_net", "wr_unl"} -> {"out"}
     [] l \in {"cn_lock", "cn_net", "cn_unl"} -> {CnLockName}
     [] l \in {"cs_lock", "cs_read"} -> IF "cs_nolock" \in Mut THEN {} ELSE {"hs"}
@@ -176,7 +206,7 @@ Start(g) ==
                [] c = "CloseWrite"           -> "cw_chk"
                [] c = "Close"                -> "cl_load")
   /\ Log([t |-> "s", g |-> g])
-  /\ UNCHANGED <<prog, ci, x, frag, hsok, locks, conn, net, mon>>
+  /\ UNCHANGED <<prog, ci, x, frag, hsok, locks, conn, net, mon, ext>>
 
 ----------------------------------------------------------------------------
 (* Handshake() as called by Handshake, Read and Write *)
@@ -193,14 +223,14 @@ HsLock(g) ==
   /\ IF hsErr \/ status = 1
      THEN Goto(g, "hs_unl_hs") /\ hsok' = [hsok EXCEPT ![g] = ~hsErr]
      ELSE Goto(g, "hs_inlock") /\ UNCHANGED hsok
-  /\ NoLog /\ UNCHANGED <<prog, ci, x, frag, inMu, outMu, conn, net, mon>>
+  /\ NoLog /\ UNCHANGED <<prog, ci, x, frag, inMu, outMu, conn, net, mon, ext>>
 
 HsInLock(g) ==
   /\ pc[g] = "hs_inlock" /\ inMu = 0
   /\ inMu' = g
   /\ hsI' = 1
   /\ Goto(g, StageLabel(HsShape[1]))
-  /\ NoLog /\ UNCHANGED <<prog, ci, x, frag, hsok, hsMu, outMu, ac, status, hsErr, inErr, outErr, cnSent, inLeft, net, mon>>
+  /\ NoLog /\ UNCHANGED <<prog, ci, x, frag, hsok, hsMu, outMu, ac, status, hsErr, inErr, outErr, cnSent, inLeft, net, mon, ext>>
 
 \* a stage succeeded: next stage
 HsAdvance(g) ==
@@ -212,7 +242,7 @@ HsAdvance(g) ==
 HsFail(g) ==
   /\ hsErr' = TRUE
   /\ hsok' = [hsok EXCEPT ![g] = FALSE]
-  /\ Goto(g, "hs_unl_in")
+  /\ Goto(g, IF rn = g THEN "rn_unl" ELSE "hs_unl_in")
   /\ hsI' = 0
 
 HsFailTag == IF hsI > 1 THEN Tag("hs_fail") ELSE NoLog
@@ -221,46 +251,49 @@ HsWlLock(g) ==
   /\ pc[g] = "hs_wl_lock" /\ outMu = 0
   /\ outMu' = g
   /\ Goto(g, "hs_wl_w")
-  /\ NoLog /\ UNCHANGED <<prog, ci, x, frag, hsok, hsMu, inMu, conn, net, mon>>
+  /\ SealU(g)
+  /\ NoLog /\ UNCHANGED <<prog, ci, x, frag, hsok, hsMu, inMu, conn, net, mon, rn>>
 
 HsWlW(g) ==
   /\ pc[g] = "hs_wl_w"
   /\ outMu' = 0
-  /\ \/ WOk   /\ HsAdvance(g) /\ Log([t |-> "w", g |-> g]) /\ UNCHANGED outErr
-     \/ WFail /\ HsFail(g) /\ HsFailTag /\ UNCHANGED outErr
-  /\ UNCHANGED <<prog, ci, x, frag, hsMu, inMu, ac, status, inErr, cnSent, inLeft, net, mon>>
+  /\ \/ WOk   /\ HsAdvance(g) /\ Log([t |-> "w", g |-> g]) /\ UNCHANGED outErr /\ WireU(g)
+     \/ WFail /\ HsFail(g) /\ HsFailTag /\ UNCHANGED outErr /\ DropU(g)
+  /\ UNCHANGED <<prog, ci, x, frag, hsMu, inMu, ac, status, inErr, cnSent, inLeft, net, mon, rn>>
 
 HsWf(g) ==
   /\ pc[g] = "hs_wf"
-  /\ \/ WOk   /\ HsAdvance(g) /\ Log([t |-> "w", g |-> g])
-     \/ WFail /\ HsFail(g) /\ HsFailTag
-  /\ UNCHANGED <<prog, ci, x, frag, locks, ac, status, inErr, outErr, cnSent, inLeft, net, mon>>
+  /\ \/ WOk   /\ HsAdvance(g) /\ Log([t |-> "w", g |-> g]) /\ FlushU
+     \/ WFail /\ HsFail(g) /\ HsFailTag /\ SqSame
+  /\ UNCHANGED <<prog, ci, x, frag, locks, ac, status, inErr, outErr, cnSent, inLeft, net, mon, rn>>
 
 HsR(g) ==
   /\ pc[g] = "hs_r"
-  /\ \/ HsROk   /\ HsAdvance(g) /\ Log([t |-> "r", g |-> g]) /\ UNCHANGED inErr
+  /\ \/ HsROk /\ (rn = g => RenegOK) /\ HsAdvance(g) /\ Log([t |-> "r", g |-> g]) /\ UNCHANGED inErr
      \/ HsRFail /\ HsFail(g) /\ HsFailTag /\ inErr' = (inErr \/ rdl # "expired")   \* a timeout is temporary
-  /\ UNCHANGED <<prog, ci, x, frag, locks, ac, status, outErr, cnSent, inLeft, net, mon>>
+     \/ \* the peer answers the renegotiation ClientHello with a fatal alert
+        rn = g /\ HsROk /\ HsFail(g) /\ Log([t |-> "r", g |-> g]) /\ inErr' = TRUE
+  /\ UNCHANGED <<prog, ci, x, frag, locks, ac, status, outErr, cnSent, inLeft, net, mon, ext>>
 
 HsStore(g) ==
   /\ pc[g] = "hs_store"
   /\ status' = 1
   /\ hsok' = [hsok EXCEPT ![g] = TRUE]
-  /\ Goto(g, "hs_unl_in")
-  /\ NoLog /\ UNCHANGED <<prog, ci, x, frag, locks, ac, hsErr, hsI, inErr, outErr, cnSent, inLeft, net, mon>>
+  /\ Goto(g, IF rn = g THEN "rn_unl" ELSE "hs_unl_in")
+  /\ NoLog /\ UNCHANGED <<prog, ci, x, frag, locks, ac, hsErr, hsI, inErr, outErr, cnSent, inLeft, net, mon, ext>>
 
 HsUnlIn(g) ==
   /\ pc[g] = "hs_unl_in"
   /\ inMu' = 0
   /\ Goto(g, "hs_unl_hs")
-  /\ NoLog /\ UNCHANGED <<prog, ci, x, frag, hsok, hsMu, outMu, conn, net, mon>>
+  /\ NoLog /\ UNCHANGED <<prog, ci, x, frag, hsok, hsMu, outMu, conn, net, mon, ext>>
 
 HsUnlHs(g) ==
   /\ pc[g] = "hs_unl_hs"
   /\ hsMu' = 0
   /\ AfterHs(g, hsok[g])
   /\ hsok' = [hsok EXCEPT ![g] = FALSE]
-  /\ NoLog /\ UNCHANGED <<prog, x, frag, inMu, outMu, conn, net, mon>>
+  /\ NoLog /\ UNCHANGED <<prog, x, frag, inMu, outMu, conn, net, mon, ext>>
 
 ----------------------------------------------------------------------------
 (* Read *)
@@ -278,18 +311,25 @@ RdLock(g) ==
           /\ Goto(g, IF inErr THEN "rd_unl" ELSE "rd_net")    \* readRecord returns c.in.err at once
           /\ IF inErr THEN Tag("rd_inerr") ELSE NoLog
   /\ UNCHANGED <<prog, ci, x, frag, hsok, hsMu, outMu, ac, status, hsErr, hsI, outErr, cnSent,
-                 netClosed, peerClosed, peerN, rdl, wdl, mon>>
+                 netClosed, peerClosed, peerN, rdl, wdl, mon, ext>>
 
 \* transport read inside readRecord, and the handling of the record up to the next blocking point
 RdNet(g) ==
   /\ pc[g] = "rd_net"
   /\ \/ /\ ROk
         /\ inQ' = Tail(inQ)
-        /\ Log([t |-> "r", g |-> g])
+        /\ LET k == Head(inQ) e == [t |-> "r", g |-> g] IN
+           IF k = "ku" /\ outMu # 0 THEN LogT(e, "ku_wait")
+           ELSE IF k = "hr" /\ hsMu # 0 THEN LogT(e, "rn_wait")
+           ELSE IF k = "hr" THEN LogT(e, "rn") ELSE Log(e)
+        \* mutation rn_store_early: handshakeStatus is reset before handshakeMutex is taken
+        /\ status' = IF Head(inQ) = "hr" /\ Reneg /\ "rn_store_early" \in Mut THEN 0 ELSE status
         /\ LET k == Head(inQ) IN
            CASE k = "d1" -> Goto(g, "rd_unl") /\ UNCHANGED <<inLeft, inErr>>
              [] k = "d2" -> Goto(g, "rd_unl") /\ inLeft' = 1 /\ UNCHANGED inErr
-             [] k = "hs" -> Goto(g, "rd_net") /\ UNCHANGED <<inLeft, inErr>>   \* ticket: no lock, loop
+             [] k \in {"hs", "kun"} -> Goto(g, "rd_net") /\ UNCHANGED <<inLeft, inErr>>   \* ticket / KeyUpdate
+                                                               \* without request: c.in only, loop
+             [] k = "hr" -> Goto(g, IF Reneg THEN "rn_lock" ELSE "rd_al_lock") /\ UNCHANGED <<inLeft, inErr>>
              [] k = "ku" -> Goto(g, "rd_ku_lock") /\ UNCHANGED <<inLeft, inErr>>
              [] k = "cn" -> Goto(g, "rd_unl") /\ inErr' = TRUE /\ UNCHANGED inLeft   \* io.EOF
      \/ \* the close-notify alert was delivered together with the last application record: Read
@@ -299,34 +339,77 @@ RdNet(g) ==
         /\ inErr' = TRUE
         /\ Goto(g, "rd_unl")
         /\ LogT([t |-> "r", g |-> g], "peek")
-        /\ UNCHANGED inLeft
+        /\ UNCHANGED <<inLeft, status>>
      \/ /\ RFail
         /\ inErr' = (inErr \/ netClosed \/ rdl # "expired")   \* a timeout is temporary
         /\ Goto(g, "rd_unl")
-        /\ (IF ~netClosed /\ rdl = "expired" THEN Tag("rd_timeout") ELSE NoLog) /\ UNCHANGED <<inQ, inLeft>>
-  /\ UNCHANGED <<prog, ci, x, frag, hsok, locks, ac, status, hsErr, hsI, outErr, cnSent,
-                 netClosed, peerClosed, peerN, rdl, wdl, mon>>
+        /\ (IF ~netClosed /\ rdl = "expired" THEN Tag("rd_timeout") ELSE NoLog) /\ UNCHANGED <<inQ, inLeft, status>>
+  /\ UNCHANGED <<prog, ci, x, frag, hsok, locks, ac, hsErr, hsI, outErr, cnSent,
+                 netClosed, peerClosed, peerN, rdl, wdl, mon, ext>>
 
 \* handleKeyUpdate with updateRequested: c.out taken while c.in is held
 RdKuLock(g) ==
-  /\ pc[g] = "rd_ku_lock" /\ outMu = 0
-  /\ outMu' = g
+  /\ pc[g] = "rd_ku_lock"
+  /\ IF KuNoLock THEN UNCHANGED outMu ELSE outMu = 0 /\ outMu' = g
   /\ Goto(g, "rd_ku_w")
-  /\ NoLog /\ UNCHANGED <<prog, ci, x, frag, hsok, hsMu, inMu, conn, net, mon>>
+  /\ SealU(g)
+  /\ NoLog /\ UNCHANGED <<prog, ci, x, frag, hsok, hsMu, inMu, conn, net, mon, rn>>
 
 RdKuW(g) ==
   /\ pc[g] = "rd_ku_w"
-  /\ outMu' = 0
-  /\ \/ WOk   /\ Log([t |-> "w", g |-> g]) /\ UNCHANGED outErr
-     \/ WFail /\ NoLog /\ outErr' = TRUE                       \* "surface the error at the next write"
+  /\ IF KuNoLock THEN UNCHANGED outMu ELSE outMu' = 0
+  /\ \/ WOk   /\ Log([t |-> "w", g |-> g]) /\ UNCHANGED outErr /\ WireU(g)
+     \/ WFail /\ NoLog /\ outErr' = TRUE /\ DropU(g)             \* "surface the error at the next write"
   /\ Goto(g, "rd_net")
-  /\ UNCHANGED <<prog, ci, x, frag, hsok, hsMu, inMu, ac, status, hsErr, hsI, inErr, cnSent, inLeft, net, mon>>
+  /\ UNCHANGED <<prog, ci, x, frag, hsok, hsMu, inMu, ac, status, hsErr, hsI, inErr, cnSent, inLeft, net, mon, rn>>
+
+\* HelloRequest with Config.Renegotiation = RenegotiateNever: sendAlert(no_renegotiation) takes c.out
+\* while c.in is held; sendAlertLocked leaves the alert as the permanent c.out.err; Read returns it
+RdAlLock(g) ==
+  /\ pc[g] = "rd_al_lock" /\ outMu = 0
+  /\ outMu' = g
+  /\ Goto(g, "rd_al_w")
+  /\ SealU(g)
+  /\ NoLog /\ UNCHANGED <<prog, ci, x, frag, hsok, hsMu, inMu, conn, net, mon, rn>>
+
+RdAlW(g) ==
+  /\ pc[g] = "rd_al_w"
+  /\ outMu' = 0
+  /\ \/ WOk   /\ Log([t |-> "w", g |-> g]) /\ WireU(g)
+     \/ WFail /\ NoLog /\ DropU(g)
+  /\ outErr' = TRUE
+  /\ Goto(g, "rd_unl")
+  /\ UNCHANGED <<prog, ci, x, frag, hsok, hsMu, inMu, ac, status, hsErr, hsI, inErr, cnSent, inLeft, net, mon, rn>>
+
+\* handleRenegotiation (RenegotiateFreelyAsClient): handshakeMutex is taken WHILE c.in is held - the
+\* only place where the lock order handshakeMutex < in is reversed; then handshakeStatus is reset and a
+\* full handshake runs holding both.  It cannot deadlock against handshake() because a goroutine that
+\* holds handshakeMutex waits for c.in only if it saw handshakeStatus = 0, which is stored only after
+\* handshakeMutex was acquired here.
+RnLock(g) ==
+  /\ pc[g] = "rn_lock" /\ hsMu = 0
+  /\ hsMu' = g
+  /\ rn' = g
+  /\ status' = 0
+  /\ hsI' = 1
+  /\ Goto(g, StageLabel(HsShape[1]))
+  /\ NoLog /\ UNCHANGED <<prog, ci, x, frag, hsok, inMu, outMu, ac, hsErr, inErr, outErr, cnSent, inLeft, net, mon,
+                           sealN, wireN, pend, seqOK>>
+
+\* deferred handshakeMutex.Unlock of handleRenegotiation; Read goes on (c.in still held) or returns the error
+RnUnl(g) ==
+  /\ pc[g] = "rn_unl"
+  /\ hsMu' = 0
+  /\ rn' = 0
+  /\ Goto(g, IF hsok[g] THEN "rd_net" ELSE "rd_unl")
+  /\ hsok' = [hsok EXCEPT ![g] = FALSE]
+  /\ NoLog /\ UNCHANGED <<prog, ci, x, frag, inMu, outMu, conn, net, mon, sealN, wireN, pend, seqOK>>
 
 RdUnl(g) ==
   /\ pc[g] = "rd_unl"
   /\ inMu' = 0
   /\ EndCall(g)
-  /\ NoLog /\ UNCHANGED <<prog, x, frag, hsok, hsMu, outMu, conn, net, mon>>
+  /\ NoLog /\ UNCHANGED <<prog, x, frag, hsok, hsMu, outMu, conn, net, mon, ext>>
 
 ----------------------------------------------------------------------------
 (* Write *)
@@ -335,7 +418,7 @@ WrLoad(g) ==
   /\ pc[g] = "wr_load"
   /\ x' = [x EXCEPT ![g] = ac]
   /\ Goto(g, "wr_cas")
-  /\ NoLog /\ UNCHANGED <<prog, ci, frag, hsok, locks, conn, net, mon>>
+  /\ NoLog /\ UNCHANGED <<prog, ci, frag, hsok, locks, conn, net, mon, ext>>
 
 WrCas(g) ==
   /\ pc[g] = "wr_cas"
@@ -345,7 +428,7 @@ WrCas(g) ==
      ELSE Goto(g, "wr_load") /\ UNCHANGED <<ci, ac>>
   /\ x' = [x EXCEPT ![g] = X0]
   /\ (IF x[g].c THEN Tag("wr_closed") ELSE NoLog)
-  /\ UNCHANGED <<prog, frag, hsok, locks, status, hsErr, hsI, inErr, outErr, cnSent, inLeft, net, mon>>
+  /\ UNCHANGED <<prog, frag, hsok, locks, status, hsErr, hsI, inErr, outErr, cnSent, inLeft, net, mon, ext>>
 
 WrOutLock(g) ==
   /\ pc[g] = "wr_outlock" /\ outMu = 0
@@ -354,7 +437,8 @@ WrOutLock(g) ==
      THEN Goto(g, "wr_unl") /\ UNCHANGED frag
      ELSE Goto(g, "wr_net") /\ frag' = [frag EXCEPT ![g] = IF Cur(g) = "Write2" THEN 2 ELSE 1]
   /\ (IF ~outErr /\ status = 1 /\ cnSent THEN Tag("wr_shutdown") ELSE NoLog)
-  /\ UNCHANGED <<prog, ci, x, hsok, hsMu, inMu, conn, net, mon>>
+  /\ (IF outErr \/ status # 1 \/ cnSent THEN SqSame ELSE SealU(g))
+  /\ UNCHANGED <<prog, ci, x, hsok, hsMu, inMu, conn, net, mon, rn>>
 
 WrNet(g) ==
   /\ pc[g] = "wr_net"
@@ -364,27 +448,29 @@ WrNet(g) ==
         /\ frag' = [frag EXCEPT ![g] = @ - 1]
         /\ midW' = IF frag[g] > 1 THEN g ELSE 0
         /\ Goto(g, IF frag[g] > 1 THEN "wr_net" ELSE "wr_unl")
+        /\ (IF frag[g] > 1 THEN WireSealU(g) ELSE WireU(g))
         /\ UNCHANGED outErr
      \/ /\ WFail
         /\ (IF ~netClosed /\ peerClosed = "no" THEN Tag("wr_timeout") ELSE NoLog)
         /\ outErr' = TRUE
         /\ midW' = IF midW = g THEN 0 ELSE midW
         /\ Goto(g, "wr_unl")
+        /\ DropU(g)
         /\ UNCHANGED <<frag, atomicOK>>
-  /\ UNCHANGED <<prog, ci, x, hsok, locks, ac, status, hsErr, hsI, inErr, cnSent, inLeft, net>>
+  /\ UNCHANGED <<prog, ci, x, hsok, locks, ac, status, hsErr, hsI, inErr, cnSent, inLeft, net, rn>>
 
 WrUnl(g) ==
   /\ pc[g] = "wr_unl"
   /\ outMu' = 0
   /\ Goto(g, "wr_dec")
-  /\ NoLog /\ UNCHANGED <<prog, ci, x, frag, hsok, hsMu, inMu, conn, net, mon>>
+  /\ NoLog /\ UNCHANGED <<prog, ci, x, frag, hsok, hsMu, inMu, conn, net, mon, ext>>
 
 WrDec(g) ==
   /\ pc[g] = "wr_dec"
   /\ ac' = [ac EXCEPT !.n = @ - 1]
   /\ EndCall(g)
   /\ x' = [x EXCEPT ![g] = X0]                \* (the local is dead: keep the state space small)
-  /\ NoLog /\ UNCHANGED <<prog, frag, hsok, locks, status, hsErr, hsI, inErr, outErr, cnSent, inLeft, net, mon>>
+  /\ NoLog /\ UNCHANGED <<prog, frag, hsok, locks, status, hsErr, hsI, inErr, outErr, cnSent, inLeft, net, mon, ext>>
 
 ----------------------------------------------------------------------------
 (* Close, CloseWrite, closeNotify *)
@@ -393,7 +479,7 @@ ClLoad(g) ==
   /\ pc[g] = "cl_load"
   /\ x' = [x EXCEPT ![g] = ac]
   /\ Goto(g, "cl_cas")
-  /\ NoLog /\ UNCHANGED <<prog, ci, frag, hsok, locks, conn, net, mon>>
+  /\ NoLog /\ UNCHANGED <<prog, ci, frag, hsok, locks, conn, net, mon, ext>>
 
 ClCas(g) ==
   /\ pc[g] = "cl_cas"
@@ -403,18 +489,18 @@ ClCas(g) ==
                             /\ Goto(g, IF x[g].n # 0 THEN "cl_netclose" ELSE "cl_chk") /\ UNCHANGED ci
      ELSE Goto(g, "cl_load") /\ UNCHANGED <<ci, ac, x>>
   /\ (IF x[g].c THEN Tag("cl_twice") ELSE IF ac = x[g] /\ x[g].n # 0 THEN Tag("cdw") ELSE NoLog)
-  /\ UNCHANGED <<prog, frag, hsok, locks, status, hsErr, hsI, inErr, outErr, cnSent, inLeft, net, mon>>
+  /\ UNCHANGED <<prog, frag, hsok, locks, status, hsErr, hsI, inErr, outErr, cnSent, inLeft, net, mon, ext>>
 
 ClChk(g) ==
   /\ pc[g] = "cl_chk"
   /\ Goto(g, IF status = 1 THEN "cn_lock" ELSE "cl_netclose")
-  /\ NoLog /\ UNCHANGED <<prog, ci, x, frag, hsok, locks, conn, net, mon>>
+  /\ NoLog /\ UNCHANGED <<prog, ci, x, frag, hsok, locks, conn, net, mon, ext>>
 
 CwChk(g) ==
   /\ pc[g] = "cw_chk"
   /\ IF status = 1 THEN Goto(g, "cn_lock") /\ UNCHANGED ci ELSE EndCall(g)   \* errEarlyCloseWrite
   /\ (IF status = 1 THEN NoLog ELSE Tag("early_cw"))
-  /\ UNCHANGED <<prog, x, frag, hsok, locks, conn, net, mon>>
+  /\ UNCHANGED <<prog, x, frag, hsok, locks, conn, net, mon, ext>>
 
 AfterCn(g) == IF Cur(g) = "Close" THEN Goto(g, "cl_netclose") /\ UNCHANGED ci ELSE EndCall(g)
 
@@ -422,32 +508,32 @@ CnLock(g) ==
   /\ pc[g] = "cn_lock"
   /\ IF CnUsesIn THEN inMu = 0 /\ inMu' = g /\ UNCHANGED outMu
                  ELSE outMu = 0 /\ outMu' = g /\ UNCHANGED inMu
-  /\ IF cnSent THEN Goto(g, "cn_unl") /\ UNCHANGED wdl
-     ELSE Goto(g, "cn_net") /\ wdl' = "set"                   \* SetWriteDeadline(now + 5s)
-  /\ NoLog /\ UNCHANGED <<prog, ci, x, frag, hsok, hsMu, conn, netClosed, peerClosed, inQ, peerN, rdl, mon>>
+  /\ IF cnSent THEN Goto(g, "cn_unl") /\ UNCHANGED wdl /\ SqSame
+     ELSE Goto(g, "cn_net") /\ wdl' = "set" /\ SealU(g)       \* SetWriteDeadline(now + 5s)
+  /\ NoLog /\ UNCHANGED <<prog, ci, x, frag, hsok, hsMu, conn, netClosed, peerClosed, inQ, peerN, rdl, mon, rn>>
 
 CnNet(g) ==
   /\ pc[g] = "cn_net"
-  /\ \/ WOk /\ Log([t |-> "w", g |-> g]) /\ atomicOK' = (atomicOK /\ midW = 0)
-     \/ WFail /\ Tag("cn_fail") /\ UNCHANGED atomicOK
+  /\ \/ WOk /\ Log([t |-> "w", g |-> g]) /\ atomicOK' = (atomicOK /\ midW = 0) /\ WireU(g)
+     \/ WFail /\ Tag("cn_fail") /\ UNCHANGED atomicOK /\ DropU(g)
   /\ cnSent' = TRUE
   /\ wdl' = "expired"                                          \* SetWriteDeadline(now)
   /\ Goto(g, "cn_unl")
   /\ UNCHANGED <<prog, ci, x, frag, hsok, locks, ac, status, hsErr, hsI, inErr, outErr, inLeft,
-                 netClosed, peerClosed, inQ, peerN, rdl, midW>>
+                 netClosed, peerClosed, inQ, peerN, rdl, midW, rn>>
 
 CnUnl(g) ==
   /\ pc[g] = "cn_unl"
   /\ IF CnUsesIn THEN inMu' = 0 /\ UNCHANGED outMu ELSE outMu' = 0 /\ UNCHANGED inMu
   /\ AfterCn(g)
-  /\ NoLog /\ UNCHANGED <<prog, x, frag, hsok, hsMu, conn, net, mon>>
+  /\ NoLog /\ UNCHANGED <<prog, x, frag, hsok, hsMu, conn, net, mon, ext>>
 
 ClNetClose(g) ==
   /\ pc[g] = "cl_netclose"
   /\ netClosed' = TRUE
   /\ EndCall(g)
   /\ x' = [x EXCEPT ![g] = X0]
-  /\ NoLog /\ UNCHANGED <<prog, frag, hsok, locks, conn, peerClosed, inQ, peerN, rdl, wdl, mon>>
+  /\ NoLog /\ UNCHANGED <<prog, frag, hsok, locks, conn, peerClosed, inQ, peerN, rdl, wdl, mon, ext>>
 
 ----------------------------------------------------------------------------
 (* ConnectionState, SetDeadline *)
@@ -456,19 +542,19 @@ CsLock(g) ==
   /\ pc[g] = "cs_lock"
   /\ IF "cs_nolock" \in Mut THEN UNCHANGED hsMu ELSE hsMu = 0 /\ hsMu' = g
   /\ Goto(g, "cs_read")
-  /\ NoLog /\ UNCHANGED <<prog, ci, x, frag, hsok, inMu, outMu, conn, net, mon>>
+  /\ NoLog /\ UNCHANGED <<prog, ci, x, frag, hsok, inMu, outMu, conn, net, mon, ext>>
 
 CsRead(g) ==
   /\ pc[g] = "cs_read"
   /\ IF "cs_nolock" \in Mut THEN UNCHANGED hsMu ELSE hsMu' = 0
   /\ EndCall(g)
-  /\ NoLog /\ UNCHANGED <<prog, x, frag, hsok, inMu, outMu, conn, net, mon>>
+  /\ NoLog /\ UNCHANGED <<prog, x, frag, hsok, inMu, outMu, conn, net, mon, ext>>
 
 Sd(g) ==
   /\ pc[g] = "sd"
   /\ rdl' = "set" /\ wdl' = "set"
   /\ EndCall(g)
-  /\ NoLog /\ UNCHANGED <<prog, x, frag, hsok, locks, conn, netClosed, peerClosed, inQ, peerN, mon>>
+  /\ NoLog /\ UNCHANGED <<prog, x, frag, hsok, locks, conn, netClosed, peerClosed, inQ, peerN, mon, ext>>
 
 ----------------------------------------------------------------------------
 (* transport / peer *)
@@ -479,7 +565,7 @@ PeerSend ==
        /\ inQ' = Append(inQ, k)
        /\ Log([t |-> "ps", k |-> k])
   /\ peerN' = peerN + 1
-  /\ UNCHANGED <<ctl, locks, conn, netClosed, peerClosed, rdl, wdl, mon>>
+  /\ UNCHANGED <<ctl, locks, conn, netClosed, peerClosed, rdl, wdl, mon, ext>>
 
 PeerClose ==
   /\ peerClosed = "no"
@@ -488,7 +574,7 @@ PeerClose ==
        /\ peerClosed' = m
        /\ inQ' = IF m = "cn" /\ status = 1 THEN Append(inQ, "cn") ELSE inQ
        /\ Log([t |-> "pc", m |-> m])
-  /\ UNCHANGED <<ctl, locks, conn, netClosed, peerN, rdl, wdl, mon>>
+  /\ UNCHANGED <<ctl, locks, conn, netClosed, peerN, rdl, wdl, mon, ext>>
 
 Expire ==
   /\ rdl = "set" \/ wdl = "set"
@@ -496,7 +582,7 @@ Expire ==
   /\ rdl' = IF rdl = "set" THEN "expired" ELSE rdl
   /\ wdl' = IF wdl = "set" THEN "expired" ELSE wdl
   /\ Log([t |-> "x"])
-  /\ UNCHANGED <<ctl, locks, conn, netClosed, peerClosed, inQ, peerN, mon>>
+  /\ UNCHANGED <<ctl, locks, conn, netClosed, peerClosed, inQ, peerN, mon, ext>>
 
 Net == PeerSend \/ PeerClose \/ Expire
 
@@ -506,7 +592,7 @@ Step(g) ==
   \/ Start(g)
   \/ HsLock(g) \/ HsInLock(g) \/ HsWlLock(g) \/ HsWlW(g) \/ HsWf(g) \/ HsR(g) \/ HsStore(g)
   \/ HsUnlIn(g) \/ HsUnlHs(g)
-  \/ RdLock(g) \/ RdNet(g) \/ RdKuLock(g) \/ RdKuW(g) \/ RdUnl(g)
+  \/ RdLock(g) \/ RdNet(g) \/ RdKuLock(g) \/ RdKuW(g) \/ RdAlLock(g) \/ RdAlW(g) \/ RnLock(g) \/ RnUnl(g) \/ RdUnl(g)
   \/ WrLoad(g) \/ WrCas(g) \/ WrOutLock(g) \/ WrNet(g) \/ WrUnl(g) \/ WrDec(g)
   \/ ClLoad(g) \/ ClCas(g) \/ ClChk(g) \/ CwChk(g) \/ CnLock(g) \/ CnNet(g) \/ CnUnl(g) \/ ClNetClose(g)
   \/ CsLock(g) \/ CsRead(g) \/ Sd(g)
@@ -526,6 +612,7 @@ Init ==
   /\ inLeft = 0
   /\ netClosed = FALSE /\ peerClosed = "no" /\ inQ = <<>> /\ peerN = 0 /\ rdl = "none" /\ wdl = "none"
   /\ midW = 0 /\ atomicOK = TRUE
+  /\ rn = 0 /\ sealN = 0 /\ wireN = 0 /\ pend = [g \in G |-> 0] /\ seqOK = TRUE
   /\ hist = <<>>
   /\ tags = {}
 
@@ -541,7 +628,7 @@ FairSpec == Spec /\ \A g \in G : WF_vars(Step(g))
 
 TypeOK ==
   /\ \A g \in G : pc[g] \in {"idle", "hs_lock", "hs_inlock", "hs_wl_lock", "hs_wl_w", "hs_wf", "hs_r", "hs_store",
-        "hs_unl_in", "hs_unl_hs", "rd_lock", "rd_net", "rd_ku_lock", "rd_ku_w", "rd_unl", "wr_load", "wr_cas",
+        "hs_unl_in", "hs_unl_hs", "rd_lock", "rd_net", "rd_ku_lock", "rd_ku_w", "rd_al_lock", "rd_al_w", "rn_lock", "rn_unl", "rd_unl", "wr_load", "wr_cas",
         "wr_outlock", "wr_net", "wr_unl", "wr_dec", "cl_load", "cl_cas", "cl_chk", "cw_chk", "cn_lock", "cn_net",
         "cn_unl", "cl_netclose", "cs_lock", "cs_read", "sd"}
   /\ hsMu \in G \cup {0} /\ inMu \in G \cup {0} /\ outMu \in G \cup {0}
@@ -550,9 +637,11 @@ TypeOK ==
 
 \* critical sections by control point (independent of the holder variables, so that a model
 \* mutation that bypasses a lock is seen)
-InHs(g)  == pc[g] \in {"hs_inlock", "hs_wl_lock", "hs_wl_w", "hs_wf", "hs_r", "hs_store", "hs_unl_in", "hs_unl_hs", "cs_read"}
-InIn(g)  == pc[g] \in {"hs_wl_lock", "hs_wl_w", "hs_wf", "hs_r", "hs_store", "hs_unl_in", "rd_net", "rd_ku_lock", "rd_ku_w", "rd_unl"}
-InOut(g) == pc[g] \in {"hs_wl_w", "rd_ku_w", "wr_net", "wr_unl", "cn_net", "cn_unl"}
+InHs(g)  == pc[g] \in {"hs_inlock", "hs_wl_lock", "hs_wl_w", "hs_wf", "hs_r", "hs_store", "hs_unl_in", "hs_unl_hs", "cs_read",
+                       "rn_unl"}
+InIn(g)  == pc[g] \in {"hs_wl_lock", "hs_wl_w", "hs_wf", "hs_r", "hs_store", "hs_unl_in", "rd_net", "rd_ku_lock", "rd_ku_w",
+                       "rd_al_lock", "rd_al_w", "rn_lock", "rn_unl", "rd_unl"}
+InOut(g) == pc[g] \in {"hs_wl_w", "rd_ku_w", "rd_al_w", "wr_net", "wr_unl", "cn_net", "cn_unl"}
 
 Mutex == \A g, h \in G : g # h =>
             /\ ~(InHs(g) /\ InHs(h))
@@ -561,7 +650,8 @@ Mutex == \A g, h \in G : g # h =>
 
 \* the holder variables agree with the control points
 Holders == /\ \A g \in G : InIn(g) => inMu = g
-           /\ \A g \in G : pc[g] \in {"hs_wl_w", "rd_ku_w", "wr_net", "wr_unl"} => outMu = g
+           /\ \A g \in G : pc[g] \in {"hs_wl_w", "rd_al_w", "wr_net", "wr_unl"} \cup (IF KuNoLock THEN {} ELSE {"rd_ku_w"})
+                              => outMu = g
            /\ \A g \in G : (InHs(g) /\ pc[g] # "cs_read") => hsMu = g
 
 \* lock order: handshakeMutex < in < out (a goroutine that waits for a lock holds only smaller ones)
@@ -591,15 +681,18 @@ ActiveCallExact == ac.n = Cardinality({g \in G : InWrite(g)})
 \* no goroutine is stuck once the transport is down: some goroutine can move unless all are done
 NoStuck == (netClosed \/ peerClosed # "no") => (AllDone \/ \E g \in G : Guard(g))
 \* stronger: there is never a cycle of goroutines waiting for locks (deadlock without the transport)
-LockWait(g) == ~Guard(g) /\ pc[g] \in {"hs_lock", "hs_inlock", "hs_wl_lock", "rd_lock", "rd_ku_lock",
-                                        "wr_outlock", "cn_lock", "cs_lock"}
+LockWait(g) == ~Guard(g) /\ pc[g] \in {"hs_lock", "hs_inlock", "hs_wl_lock", "rd_lock", "rd_ku_lock", "rd_al_lock",
+                                        "rn_lock", "wr_outlock", "cn_lock", "cs_lock"}
 TransportWait(g) == ~Guard(g) /\ pc[g] \in {"rd_net", "hs_r"}
 NoLockDeadlock == (\E g \in G : LockWait(g)) => \E g \in G : Guard(g) \/ TransportWait(g)
 
 WriteAtomicB == atomicOK
 
+\* records reach the wire in the order in which they were sealed (the peer's MAC check depends on it)
+SeqOK == seqOK
+
 Safety == TypeOK /\ Mutex /\ Holders /\ LockOrder /\ NoRace /\ HsFieldsStable /\ CloseDuringWrite
-          /\ ActiveCallExact /\ NoStuck /\ NoLockDeadlock
+          /\ ActiveCallExact /\ NoStuck /\ NoLockDeadlock /\ SeqOK
 
 \* liveness
 PeerClosedLeadsToDone == (peerClosed # "no") ~> AllDone
@@ -614,11 +707,11 @@ DeadlinesLeadToDone   == <>[](rdl = "expired" /\ wdl = "expired") => <>AllDone
 \* branch, the harness runs the rest of the programs freely
 \* The history is hidden from the fingerprint (VIEW WitView): TLC keeps, for every state that
 \* first takes the branch, the history of the path on which it found that state.
-WitView == <<ctl, locks, conn, net, mon, tags>>
+WitView == <<ctl, locks, conn, net, mon, ext, tags>>
 WitBound == tags = {} /\ Len(hist) <= WitLen
 WitEmit == tags # {} => PrintT(ToJson([progs |-> [i \in 1..Cardinality(G) |-> prog[i]], ev |-> hist,
                                         tag |-> CHOOSE t \in tags : TRUE]))
-AllTags == {"peek", "cdw", "wr_shutdown", "wr_closed", "cn_fail", "hs_fail", "rd_left", "rd_inerr", "cl_twice",
+AllTags == {"ku_wait", "rn", "rn_wait", "peek", "cdw", "wr_shutdown", "wr_closed", "cn_fail", "hs_fail", "rd_left", "rd_inerr", "cl_twice",
             "early_cw", "rd_timeout", "wr_timeout"}
 Emit == AllDone => PrintT(ToJson([progs |-> [i \in 1..Cardinality(G) |-> prog[i]], ev |-> hist]))
 =============================================================================
